@@ -434,6 +434,48 @@ pub fn take_out() -> Vec<Tok> {
 }
 
 /// Push `src` as a new source and run the VM until its input is exhausted.
+/// A writer the harness can read back after the script component has written to it.
+#[derive(Clone, Default)]
+pub struct SharedBuf(pub Rc<RefCell<Vec<u8>>>);
+impl std::io::Write for SharedBuf {
+    fn write(&mut self, b: &[u8]) -> std::io::Result<usize> {
+        self.0.borrow_mut().extend_from_slice(b);
+        Ok(b.len())
+    }
+    fn flush(&mut self) -> std::io::Result<()> {
+        Ok(())
+    }
+}
+
+/// Run `src` through texlang-stdlib's own output path (script::run: tokens are written as text, blanks and
+/// newlines are owed to the next token); returns what was written.
+pub fn run_script(vm: &mut vm::VM<VS>, name: &str, src: &str, budget: u64) -> (String, Outcome) {
+    STEPS.with(|s| s.set(0));
+    BUDGET.with(|b| b.set(budget));
+    crate::util::reset_last_panic();
+    let buf = SharedBuf::default();
+    script::set_io_writer(vm, buf.clone());
+    let r = std::panic::catch_unwind(std::panic::AssertUnwindSafe(|| {
+        let _ = vm.push_source(name.to_string(), src.to_string());
+        script::run(vm).map_err(|e| (format!("{e}"), e.error.title()))
+    }));
+    BUDGET.with(|b| b.set(u64::MAX));
+    let outcome = match r {
+        Ok(Ok(())) => Outcome::Ok,
+        Ok(Err((rendered, title))) => Outcome::Err { rendered, title },
+        Err(payload) => {
+            if payload.downcast_ref::<BudgetExceeded>().is_some() {
+                Outcome::Budget
+            } else {
+                let (site, msg) = crate::util::last_panic().unwrap_or(("?".into(), "?".into()));
+                Outcome::Panic { site, msg }
+            }
+        }
+    };
+    let text = String::from_utf8_lossy(&buf.0.borrow()).to_string();
+    (text, outcome)
+}
+
 pub fn run_src<HH: vm::Handlers<VS>>(vm: &mut vm::VM<VS>, name: &str, src: &str, budget: u64) -> RunResult {
     OUT.with(|o| o.borrow_mut().clear());
     FIRST_ERR_AT.with(|f| f.set(-1));
